@@ -12,3 +12,5 @@ import AvoVerif.Props.C02
 #print axioms Avo.Live.liveness_order_irrelevant
 #print axioms Avo.Determinism.allocLoop_perm
 #print axioms Avo.Alloc.foldl_perm
+#print axioms Avo.Determinism.allocate_kinds_perm
+#print axioms Avo.Determinism.requiredISA_perm
